@@ -90,7 +90,10 @@ class RunCtx:
         for i in self.instances:
             if i.verdict in ("ok", "violation"):
                 counts[i.rule] = counts.get(i.rule, 0) + 1
+        violated = {i.rule for i in self.instances if i.verdict == "violation"}
         for rid, floor in self.floors.items():
+            if rid in violated:
+                continue  # a reported violation may legitimately cut the rule's enumeration short
             if counts.get(rid, 0) < floor:
                 raise AnalysisError(
                     f"rule {rid} matched {counts.get(rid, 0)} instance(s), below its "
